@@ -529,7 +529,7 @@ Proof.
   pose proof (fields_loop_ok m (m_fields m) st1 exs HI1 HU1) as Hf.
   destruct (fields_loop D rec m st1 exs (m_fields m)) as [[[st2 exs2] ps]| | |] eqn:Ef; cbn [obind Pf Pg pr3 fst] in *; try exact Hf.
   destruct Hf as [HI2 He2].
-  destruct (existsb ex_pending exs2); [exact I|].
+  destruct (existsb ex_pending exs2); [exact I|]. destruct (negb (exs_names_ok exs2)); [exact I|].
   assert (Hn2 : exs_named m exs2) by (eapply fields_loop_named; eauto).
   destruct (finish_oneofs_ok m Hm exs2 st2 Hn2 HI2) as [H1 H2].
   cbn. split; [exact H1|]. eapply ext_trans; [exact He1|]. eapply ext_trans; [exact He2|exact H2].
@@ -637,15 +637,6 @@ Lemma scalar_arms_agree : map kind_go_name scalar_kinds_handled = ReflectGen.sca
 Proof. vm_compute. reflexivity. Qed.
 Lemma build_schema_arms_agree : map kind_go_name [KMessage; KEnum] = ReflectGen.build_schema_arms.
 Proof. vm_compute. reflexivity. Qed.
-Lemma wkt_arms_agree :
-  map (fun s => list_ascii_of_string s) ReflectGen.wkt_arms =
-  map (fun b => map (fun n => Ascii.ascii_of_N n) b)
-      [s_Timestamp; s_Duration; s_Date; s_Decimal; s_Struct; s_J5Any; s_PbAny].
-Proof. vm_compute. reflexivity. Qed.
-Lemma factory_arms_agree :
-  ReflectGen.newFieldFactory_arms = ["EnumField"; "ScalarSchema"]%string /\
-  ReflectGen.newMessageFieldFactory_arms = ["ObjectField"; "OneofField"; "AnyField"]%string.
-Proof. split; vm_compute; reflexivity. Qed.
 
 (* the model's scalar builder errs exactly on the kinds without an arm, whatever the annotations *)
 Definition empty_exts : exts := {| x_validate := None; x_list := None; x_j5 := None; x_key := None |}.
@@ -661,3 +652,57 @@ Lemma kinds_partition :
                     || kind_eqb k KMessage || kind_eqb k KEnum
                     || existsb (kind_eqb k) [KSfixed32; KFixed32; KSfixed64; KFixed64; KGroup; KInvalid]) all_kinds = true.
 Proof. vm_compute. reflexivity. Qed.
+
+(* ---------------------------------------------------------------- probes of the model functions against the Go arm tables *)
+(* wktSchema: the model has an arm (answers with a schema) for every name the Go switch lists, and for
+   NO other name (it answers "not a well-known type" whatever the annotations) *)
+Definition gen_wkt_names : list str := map bytes ReflectGen.wkt_arms.
+Lemma wkt_arms_probe :
+  forallb (fun n => match wkt_schema n empty_exts with ROk (Some _) => true | _ => false end) gen_wkt_names = true.
+Proof. vm_compute. reflexivity. Qed.
+Lemma wkt_only_the_go_arms full x :
+  forallb (fun n => negb (str_eqb full n)) gen_wkt_names = true -> wkt_schema full x = ROk None.
+Proof.
+  unfold gen_wkt_names, ReflectGen.wkt_arms. cbn [map forallb]. intros H.
+  repeat (apply andb_prop in H as [?H H]). clear H.
+  repeat match goal with Hn : negb _ = true |- _ => apply negb_true_iff in Hn end.
+  unfold wkt_schema, s_Timestamp, s_Duration, s_Date, s_Decimal, s_Struct, s_J5Any, s_PbAny.
+  repeat match goal with Hn : str_eqb full ?n = false |- _ => rewrite Hn; clear Hn end.
+  reflexivity.
+Qed.
+
+(* newFieldFactory / newMessageFieldFactory: the Go type name of a schema value *)
+Definition schema_go_name (s : fschema) : string :=
+  match s with
+  | FScalar _ _ => "ScalarSchema" | FAny _ _ _ => "AnyField" | FEnum _ _ _ _ => "EnumField"
+  | FObject _ _ _ _ => "ObjectField" | FOneof _ _ _ _ => "OneofField" | FMap _ _ _ => "MapField" | FArray _ _ _ => "ArrayField"
+  end.
+Definition name_in (x : string) (l : list string) : bool := existsb (String.eqb x) l.
+(* a schema type without an arm in the Go type switch reaches the model's default arm (an error since
+   c68139b), and a schema type WITH an arm never does *)
+Lemma leaf_factory_default_iff st s f :
+  name_in (schema_go_name s) ReflectGen.newFieldFactory_arms = false <->
+  leaf_factory st s f = Err "newFieldFactory: unsupported schema for leaf field".
+Proof.
+  split.
+  - destruct s; vm_compute; intros H; try discriminate; reflexivity.
+  - destruct s as [[[k w]|] p|a b c|k r l e|k fl r e|k r l e|it r e|it r e]; cbn [leaf_factory schema_go_name]; intros H;
+      try (vm_compute; reflexivity); exfalso.
+    + destruct w; [destruct (kind_eqb (f_kind f) k)|destruct (negb (kind_eqb (f_kind f) KMessage)); [|destruct (str_eqb (value_full f) (n :: w))]]; discriminate.
+    + discriminate.
+    + destruct (kind_eqb (f_kind f) KEnum); [destruct (lookup st k) as [[|[| |]]|]|]; discriminate.
+Qed.
+Lemma message_factory_default D st s f :
+  name_in (schema_go_name s) ReflectGen.newMessageFieldFactory_arms = false ->
+  message_factory D st s f = Err "newMessageFieldFactory: unsupported schema for message field".
+Proof. destruct s; vm_compute; intros H; try discriminate; reflexivity. Qed.
+(* and a schema type WITH an arm does not take the default arm (probed on the empty schema set, where the
+   object / oneof arms fail their type assertion and the any arm looks at the field) *)
+Lemma message_factory_arms_probe D s f :
+  name_in (schema_go_name s) ReflectGen.newMessageFieldFactory_arms = true ->
+  message_factory D [] s f <> Err "newMessageFieldFactory: unsupported schema for message field".
+Proof.
+  destruct s as [kw p|a b c|k r l e|k fl r e|k r l e|it r e|it r e]; cbn [message_factory schema_go_name lookup]; intros H;
+    try (vm_compute in H; discriminate H); try discriminate.
+  destruct (str_eqb (value_full f) s_PbAny || str_eqb (value_full f) s_J5Any); discriminate.
+Qed.
